@@ -133,6 +133,14 @@ func main() {
 			frs = append(frs, eng.VerifyFunc(pi, spec))
 			frPkg = append(frPkg, pi)
 		}
+		// constant tables: "<pkg>.tables" names all table blocks of the package
+		if len(pi.Contracts.TableOrder) > 0 && (len(want) == 0 || want[pi.Short+".tables"]) {
+			found[pi.Short+".tables"] = true
+			for _, tn := range pi.Contracts.TableOrder {
+				frs = append(frs, eng.VerifyTable(pi, pi.Contracts.Tables[tn]))
+				frPkg = append(frPkg, nil)
+			}
+		}
 	}
 	for f := range want {
 		if !found[f] {
